@@ -221,3 +221,19 @@ func VerifC02_Reopen() {
 		verifrt.Assert(conn.Out[4+j] == verifrt.ByteAt("fileb", int64(o2)+j), "reopen.second-read-bytes")
 	}
 }
+
+// The file shrinks while it is open (truncated by someone else, or re-created through the same server): an ordinary
+// read announces exactly the bytes that follow - those the file holds NOW - never a count remembered from the open.
+func VerifC02_ReadShrunk() {
+	e := verifOpenPlain(verifrt.Bound("C02.maxsize", 10, 20), 1, 0)
+	f, ok := e.ctx.State.ROFile.(*verifstub.File)
+	verifrt.Assert(ok, "shrunk.plain-file-handle")
+	if !ok {
+		return
+	}
+	ns := verifrt.Int64("size-now")
+	verifrt.Assume(ns >= 0)
+	verifrt.Assume(ns <= e.size)
+	f.Size, e.size = ns, ns
+	verifC02Read(e)
+}
